@@ -154,6 +154,7 @@ type JobResult struct {
 	AtReturn   *Check  `json:"at_return,omitempty"`
 	AtEnd      *Check  `json:"at_end,omitempty"`
 	Digest     string  `json:"digest,omitempty"`
+	Digest2    string  `json:"digest_no_owner,omitempty"` // DXF: digest with owner handles (group 330) blanked
 	Items      int     `json:"items,omitempty"`
 	FaultFired bool    `json:"fault_fired,omitempty"`
 	FaultNote  string  `json:"fault_note,omitempty"`
